@@ -312,7 +312,9 @@ func (c *H1Cfg) forRun(i int) *H1Cfg {
 
 func (h1) Ties(cfg any) bool {
 	c := cfg.(*H1Cfg)
-	return c.MaxDurationNs >= int64(59*time.Second)
+	// (an unexportable stage parameter makes f1 report an error from inside a loop over a Go map: where in the
+	// event log it lands depends on the map's iteration order, which the simulator does not control)
+	return c.MaxDurationNs >= int64(59*time.Second) || strings.Contains(c.FileYAML, "F1V=BAD")
 }
 
 func (h1) Describe(cfg any) string {
